@@ -16,8 +16,21 @@
 import json, os, random, subprocess, sys
 from .. import tlc, tlaval, pipeline_common as pc
 
-KWD = {'min1': {'min_occurs': 1}, 'nil0': {'nillable': False}, 'ge5': {'ge': 5}, 'len3': {'max_len': 3},
+KWD = _KWD0 = {'min1': {'min_occurs': 1}, 'nil0': {'nillable': False}, 'ge5': {'ge': 5}, 'len3': {'max_len': 3},
        'pk1': {'pk': True}, 'pk0': {'pk': False}, 'v03': {'values': ['', 'abc']}, 'v36': {'values': ['abc', 'abcdef']}}
+
+def _pa(kw):
+    # (a fresh literal every time, as user code writes it)
+    from spyne.protocol.json import JsonDocument
+    return {'paexc': {'pa': {JsonDocument: {'exc': True}}}, 'pasub': {'pa': {JsonDocument: {'sub_name': 'u'}}}}[kw]
+
+
+class _Kwd(dict):
+    def __missing__(self, k):
+        return _pa(k)
+
+
+KWD = _Kwd(_KWD0)
 VALS = {(): 'none', ('', 'abc'): 'v03', ('abc', 'abcdef'): 'v36'}
 NOGE, NOLEN, INF = -999, 999, 99
 
@@ -49,7 +62,16 @@ def attrs_of(c):
             'minlen': num(getattr(a, 'min_len', 0), 999), 'maxlen': num(getattr(a, 'max_len', float('inf')), NOLEN),
             'mino': num(a.min_occurs, INF), 'maxo': num(a.max_occurs, INF), 'nil': bool(a.nillable),
             'pk': {None: -1, True: 1, False: 0}.get(((getattr(a, 'sqla_column_args', None) or ((), {}))[-1]).get('primary_key'), -7),
-            'vals': VALS.get(tuple(sorted(getattr(a, 'values', None) or ())), '?')}
+            'vals': VALS.get(tuple(sorted(getattr(a, 'values', None) or ())), '?'), 'pa': pa_of(a)}
+
+
+def pa_of(a):
+    from spyne.protocol.json import JsonDocument
+    t = getattr(a, 'prot_attrs', None) or {}
+    d = dict(t.get(JsonDocument, None) or {})
+    extra = sorted(str(k) for k in t.keys() if k is not JsonDocument)
+    ks = sorted({'exc': 'exc', 'sub_name': 'sub'}.get(k, k) for k in d.keys()) + ['other:' + x for x in extra]
+    return '+'.join(ks) if ks else 'none'
 
 
 def base_of(c):
@@ -70,7 +92,7 @@ def norm_attrs(a, base):
     if base != 'str':
         a = dict(a, minlen=0, maxlen=NOLEN, vals='none')
     if base not in ('int', 'str'):
-        a = dict(a, pk=-1)
+        a = dict(a, pk=-1, pa='none')
     return a
 
 
@@ -309,7 +331,7 @@ def pick_op(rnd, pool):
             return (k, rnd.choice(ids))
         if k in ('CustPrim', 'CustProt'):
             i = rnd.choice(prim_ids)
-            return (k, i, rnd.choice((['min1', 'nil0', 'ge5', 'pk1', 'pk0'] if base_of(pool[i]) == 'int' else ['min1', 'nil0', 'len3', 'pk1', 'pk0', 'v03', 'v36'])
+            return (k, i, rnd.choice((['min1', 'nil0', 'ge5', 'pk1', 'pk0', 'paexc', 'pasub'] if base_of(pool[i]) == 'int' else ['min1', 'nil0', 'len3', 'pk1', 'pk0', 'v03', 'v36', 'paexc', 'pasub'])
                                      + (['none', 'none'] if k == 'CustProt' else [])))
         if k in ('Customize', 'ChildAttrsAll'):
             return (k, rnd.choice(cls_ids), rnd.choice(['min1', 'nil0']))
